@@ -89,4 +89,9 @@ def run(ctx, b, broken):
                 su.violation(text, f"declared names {names} came out as {got} (innermost declnames {inner})")
         except Exception as ex:
             su.violation(text, f"rejected: {ex}")
+    # hand-written programs (rarely used productions): model and implementation must agree on each, tree and coordinates
+    for text, _valid in ZOO:
+        ctx.evaluations += 1
+        ctx.count("suite:zoo")
+        su.corr(text, impl_parse(text), tag="hand-written programs")
     su.finish()
